@@ -575,7 +575,7 @@ impl Check for C13 {
                 emit(Case::with("value", t.as_bytes().to_vec(), &[7]));
             }
         }
-        let n = g.count(40_000, 1_000_000);
+        let n = g.count(120_000, 5_000_000);
         for k in 0..n {
             let mut o = DocOpts::random(&mut r);
             o.ws = r.below(3) as u8;
@@ -585,7 +585,7 @@ impl Check for C13 {
             let t = gg.out;
             emit(Case::with("value", t, &[r.next() as i64]));
         }
-        let n = g.count(30_000, 1_000_000);
+        let n = g.count(100_000, 5_000_000);
         for _ in 0..n {
             let mut o = DocOpts::random(&mut r);
             o.dup_keys = false;
